@@ -188,7 +188,13 @@ package client
 //@ ensures [C14:credential] calls(BH) == 1 ==> (old(operation.AuthInfo) != nil ==> arg(BH,0,5) == old(operation.AuthInfo) && calls(C1) == 0) && (old(operation.AuthInfo) == nil && old(r.DefaultAuthentication) == nil ==> arg(BH,0,5) == nil && calls(C1) == 0) && (old(operation.AuthInfo) == nil && old(r.DefaultAuthentication) != nil ==> calls(C1) == 1 && captured(C1,0,"r") == r && arg(BH,0,5) == boxas(ret(C1,0,0), "runtime.ClientAuthInfoWriterFunc"))
 //@ ensures [C10:buildfail] calls(BH) == 1 && ret(BH,0,1) != nil ==> result0 == nil && result1 == nil && result2 == ret(BH,0,1) && calls(PS) == 0
 //@ ensures [C10:scheme] result2 == nil ==> calls(BH) == 1 && calls(PS) == 1 && arg(PS,0,0) == r && result0 == ret(NR,0,0) && result0 != nil && result1 == ret(BH,0,0) && result1 != nil && result1.URL != nil && result1.URL.Scheme == ret(PS,0,0) && result1.URL.Host == r.Host && result1.Host == r.Host
+//@ spec cmts() := old(operation.ConsumesMediaTypes)
+//@ ensures [C10:mediatype] calls(BH) == 1 ==> ((forall j int :: 0 <= j && j < len(cmts()) ==> old(cmts()[j]) == "") && arg(BH,0,1) == old(r.DefaultMediaType)) || (exists j int :: 0 <= j && j < len(cmts()) && old(cmts()[j]) != "" && arg(BH,0,1) == old(cmts()[j]) && forall i int :: 0 <= i && i < j ==> old(cmts()[i]) == "")
+//@ ensures [C10:producer] calls(BH) == 1 ==> before(BH, in(arg(BH,0,1), r.Producers)) || arg(BH,0,1) == "multipart/form-data" || arg(BH,0,1) == "application/x-www-form-urlencoded"
+//@ ensures [C10:noproducer] calls(BH) == 0 && calls(SH) == 1 && ret(SH,0,0) == nil ==> result2 != nil && result0 == nil && result1 == nil
+//@ stable operation.ConsumesMediaTypes[*], operation.ConsumesMediaTypes, r.DefaultMediaType, r.Producers[*]
 //@ loop 0 invariant calls(NR) == 1 && calls(SH) == 1 && calls(BH) == 0 && calls(PS) == 0 && request == ret(NR,0,0) && request != nil && request.writer == old(operation.Params)
+//@ loop 0 invariant forall j int :: 0 <= j && j <= rangeindex ==> old(cmts()[j]) == ""
 //@ loop 0 invariant calls(C1) == (old(operation.AuthInfo) == nil && old(r.DefaultAuthentication) != nil ? 1 : 0)
 
 //@ func newRequest
